@@ -430,6 +430,21 @@ func Run(c Case) (res core.Result) {
 			}
 		}
 	}
+	// every Close call is a Close call: at the moment any of them returns no handler is running,
+	// and none starts afterwards
+	for j, r := range recs {
+		if r == nil || !r.returned {
+			continue
+		}
+		for _, x := range ivs {
+			if x.start > r.ret {
+				return core.Fail("C16/handler-starts-after-close", "%s began executing after Close call %d had returned (start t=%d, that Close returned t=%d); states %v, closers %v, order %v", x.what, j, x.start, r.ret, c.Conns, c.Closers, c.Order)
+			}
+			if x.start < r.ret && (x.end == 0 || x.end > r.ret) {
+				return core.Fail("C16/close-returns-before-handler-finished", "Close call %d of %d returned (t=%d) while %s, started at t=%d, was still running (end t=%d); states %v, closers %v, order %v", j, len(recs), r.ret, x.what, x.start, x.end, c.Conns, c.Closers, c.Order)
+			}
+		}
+	}
 	for _, x := range ivs {
 		if x.start > rstar {
 			return core.Fail("C16/handler-starts-after-close", "%s began executing after Close had returned (start t=%d, Close returned t=%d); states %v, closers %v, order %v", x.what, x.start, rstar, c.Conns, c.Closers, c.Order)
